@@ -59,7 +59,7 @@ class Ctx:
   def build(self, model_targets=None):
     """Builds the model files first (so the model runs even when a proof breaks), then Properties/<prop>.vo.
     Fills obligations/discharged/trusted_base."""
-    bad = coqrun.hygiene()
+    bad = coqrun.hygiene(['Properties/%s.v' % self.prop] + [t[:-1] if t.endswith('.vo') else t for t in self.meta.get('model_targets', [])])
     if bad:
       self.broken.append(dict(kind='hygiene', name='coq/', detail='; '.join(bad[:10])))
       self.log('HYGIENE FAILURE', bad[:10])
